@@ -950,13 +950,14 @@ impl Rasn {
                 let (mut ids, mut inner_types) = (vec![], vec![]);
                 for (index, (id, ty)) in fields.iter().enumerate() {
                     let identifier_value = match id {
+                        // identifiers are compared by reference to the lazily initialized static
                         ASN1Value::LinkedElsewhereDefinedValue {
                             can_be_const: false,
+                            identifier,
                             ..
                         } => {
-                            let tokenized_value =
-                                self.value_to_tokens(id, Some(&class_unique_id_type_name))?;
-                            quote!(*#tokenized_value)
+                            let referenced = self.to_rust_const_case(identifier);
+                            quote!(*#referenced)
                         }
                         ASN1Value::LinkedNestedValue { value, .. }
                             if matches![
@@ -967,9 +968,15 @@ impl Rasn {
                                 }
                             ] =>
                         {
-                            let tokenized_value =
-                                self.value_to_tokens(value, Some(&class_unique_id_type_name))?;
-                            quote!(*#tokenized_value)
+                            let referenced = match &**value {
+                                ASN1Value::LinkedElsewhereDefinedValue { identifier, .. } => {
+                                    self.to_rust_const_case(identifier).to_token_stream()
+                                }
+                                other => {
+                                    self.value_to_tokens(other, Some(&class_unique_id_type_name))?
+                                }
+                            };
+                            quote!(*#referenced)
                         }
                         ASN1Value::LinkedNestedValue { value, .. }
                             if matches![
